@@ -129,3 +129,28 @@ class Inbox:
         i, par = ev_id(event)
         self.items.append({'ev': i, 'par': par, 'dl': event.data.get('delay', 0),
                            'cls': type(event).__name__})
+
+
+META_NAMES = ['step started', 'step ended', 'event consumed', 'event sent', 'state exited',
+              'state entered', 'transition processed']
+
+
+class Mon:
+    """State of a property statechart that turns final at the mfail-th meta-event of a call."""
+
+    def __init__(self):
+        self.mfail = 0
+        self.count = 0
+        self.times = []
+
+    def arm(self, mfail):
+        self.mfail = mfail
+        self.count = 0
+        self.times = []
+
+    def rec(self, event, time):
+        self.count += 1
+        self.times.append(time)
+
+    def fire(self):
+        return self.mfail != 0 and self.count == self.mfail
